@@ -438,13 +438,6 @@ func reasonClass(err error) string {
 	return b.String()
 }
 
-func shortLabel(s string) string {
-	if i := strings.Index(s, "/"); i > 0 {
-		return s[:i]
-	}
-	return s
-}
-
 // registryCoverage compares what is registered in protoserialization (read through the export
 // hook) with what stream 1 exercised, so that a key type added to the library shows up as uncovered.
 func (w *world) registryCoverage() {
